@@ -376,7 +376,12 @@ func tryRepairInvalidUTF8InBlob(blob *common.DataBlob) ([]*history.HistoryEvent,
 	}
 
 	changed, err := validateAndRepairHistoryEvents(events122)
-	if err != nil || !changed {
+	if err == nil && !changed {
+		// The blob could not be decoded and nothing in it was repairable: report it (as the codec
+		// does) instead of letting the caller pass the blob on with its events unvisited.
+		err = fmt.Errorf("nothing was repaired in history event blob")
+	}
+	if err != nil {
 		return nil, changed, err
 	}
 
